@@ -202,6 +202,59 @@ func runC02Preexisting(rc *Recorder, dir string, rng *rand.Rand) error {
 	return nil
 }
 
+// runC02Injected: the deterministic counterpart of runC02 — no writer goroutine; version-stamped
+// application transactions are committed between litestream operations and, through the logger
+// hook, at the n-th log record INSIDE them (between the steps of the sync / checkpoint / snapshot
+// protocols). Replays exactly.
+func runC02Injected(rc *Recorder, dir string, rng *rand.Rand, steps int) error {
+	cfg := randConfig(rng)
+	if cfg.PageSize > 8192 {
+		cfg.PageSize = 4096
+	}
+	w, err := newWorld(dir, cfg, rng)
+	if err != nil {
+		return err
+	}
+	defer func() {
+		w.closeReader()
+		w.app.Close()
+		if w.injConn != nil {
+			w.injConn.Close()
+		}
+	}()
+	if err := setupVersionTables(w.app); err != nil {
+		return err
+	}
+	w.useInject, w.injectVersioned = true, true
+	w.ldb = w.newLitestream()
+	if err := w.ldb.Open(); err != nil {
+		return err
+	}
+	w.trace = append(w.trace, "C02 injected commits; ops:")
+	ops := []string{"S", "S", "S", "RS", "SW", "CK-PASSIVE", "CK-FULL", "CK-RESTART", "CK-TRUNCATE", "SNAP", "CMP", "APP", "APP", "APP"}
+	for i := 0; i < steps+10; i++ {
+		op := ops[rng.Intn(len(ops))]
+		if op == "APP" {
+			w.trace = append(w.trace, "APP")
+			if err := commitVersion(w.app, int64(w.version+1)); err == nil {
+				w.version++
+			}
+			continue
+		}
+		w.step(rc, op)
+	}
+	ctx, cancel := context.WithTimeout(ctxb, 120*time.Second)
+	defer cancel()
+	w.injectIn = 0
+	if err := w.ldb.SyncAndWait(ctx); err == nil {
+		w.ackOracle(rc, "SyncAndWait (end of injected history)")
+	}
+	w.everyTXIDOracle(rc, true)
+	w.closeLitestream(rc)
+	rc.cw.Classes[fmt.Sprintf("c02-injected ps=%d maxb=%d", cfg.PageSize, cfg.MaxSyncWALBytes)]++
+	return nil
+}
+
 // everyTXIDOracle evaluates C02's statement on the replica as it stands.
 func (w *World) everyTXIDOracle(rc *Recorder, logical bool) {
 	all, l0 := replicaTXIDs(w.replicaDir)
